@@ -85,6 +85,87 @@ class MapModel:
         return list(self.writes)
 
 
+class AssocTable:
+    """A finite store with possibly symbolic tuple keys: a list of (key, value) entries; a lookup
+    compares the key with every entry through z3 (`decide` forks on undetermined equalities).
+    Used for pre-states that list their entries explicitly (Dimension.define rewrites the table)."""
+
+    def __init__(self, entries: Sequence[Tuple[Any, Any]] = ()) -> None:
+        self.entries: List[Tuple[Any, Any]] = list(entries)
+
+    @staticmethod
+    def _eq(k1: Any, k2: Any) -> bool:
+        if k1 is k2:
+            return True
+        if not isinstance(k1, tuple) or not isinstance(k2, tuple):
+            raise symnum.HarnessError("AssocTable keys are tuples")
+        if len(k1) != len(k2):
+            return False
+        conds = []
+        for a, b in zip(k1, k2):
+            if symnum.is_sym(a) or symnum.is_sym(b):
+                conds.append(symnum.term(a) == symnum.term(b))
+            elif a != b:
+                return False
+        if not conds:
+            return True
+        return ctx().decide(z3.And(*conds))
+
+    def _find(self, key: Any) -> Optional[int]:
+        for i, (k, _) in enumerate(self.entries):
+            if self._eq(k, key):
+                return i
+        return None
+
+    def __contains__(self, key: Any) -> bool:
+        return self._find(key) is not None
+
+    def __getitem__(self, key: Any) -> Any:
+        i = self._find(key)
+        if i is None:
+            raise KeyError(key)
+        return self.entries[i][1]
+
+    def get(self, key: Any, default: Any = None) -> Any:
+        i = self._find(key)
+        return default if i is None else self.entries[i][1]
+
+    def __setitem__(self, key: Any, value: Any) -> None:
+        i = self._find(key)
+        if i is None:
+            self.entries.append((key, value))
+        else:
+            self.entries[i] = (self.entries[i][0], value)
+
+    def __delitem__(self, key: Any) -> None:
+        i = self._find(key)
+        if i is None:
+            raise KeyError(key)
+        del self.entries[i]
+
+    def setdefault(self, key: Any, value: Any) -> Any:
+        i = self._find(key)
+        if i is None:
+            self.entries.append((key, value))
+            return value
+        return self.entries[i][1]
+
+    def values(self) -> List[Any]:
+        return [v for _, v in self.entries]
+
+    def keys(self) -> List[Any]:
+        return [k for k, _ in self.entries]
+
+    def items(self) -> List[Tuple[Any, Any]]:
+        return list(self.entries)
+
+    def __iter__(self) -> Any:
+        return iter(self.keys())
+
+    def __len__(self) -> int:
+        return len(self.entries)
+
+
 class Tables:
     """Context manager swapping the class-level tables of Dimension / Prefix / Unit."""
 
